@@ -497,6 +497,11 @@ fn c02_scenarios(thorough: bool) -> Vec<Scenario> {
                 if p.wneed_full || p.tagged {
                     return None;
                 }
+                // (Tagged executions cost more per step: five-sample scripts
+                // are left to C03.)
+                if p.wscript.iter().sum::<usize>() > 4 {
+                    return None;
+                }
                 p.tagged = true;
                 Some(Scenario::Pc(p))
             }
